@@ -445,6 +445,7 @@ func workerMain(seed uint64, h int, maxBatches int, thorough bool) {
 	rec.put(record{T: "done"})
 	os.Stdout.Sync()
 	if s.aborted {
+		os.RemoveAll(s.dir)
 		os.Exit(0) // the shard may be poisoned: do not try to close it
 	}
 	s.close()
@@ -527,6 +528,9 @@ func replayMain(path string) {
 			fmt.Println("bad-op")
 		}
 	}
+	if s != nil {
+		os.RemoveAll(s.dir)
+	}
 	os.Stdout.Sync()
 	os.Exit(0)
 }
@@ -567,8 +571,14 @@ type totals struct {
 	crashes  int
 }
 
+// base directory of the temp dirs of workers and probes (removed by the supervisor at the end)
+var tmpBase string
+
 func runWorker(exe string, args []string, timeout time.Duration) (stdout, stderr string, exited bool) {
 	cmd := exec.Command(exe, args...)
+	if tmpBase != "" {
+		cmd.Env = append(os.Environ(), "TMPDIR="+tmpBase) // a crashed worker leaves its files here
+	}
 	var so, se bytes.Buffer
 	cmd.Stdout, cmd.Stderr = &so, &se
 	if err := cmd.Start(); err != nil {
@@ -623,6 +633,10 @@ func main() {
 	}
 	exe := selfExe()
 	o := vh.NewOut(*dir)
+	if base, err := os.MkdirTemp("", "c01-run-"); err == nil {
+		tmpBase = base
+		defer os.RemoveAll(base)
+	}
 	crashes := 0
 	sigSeen := map[string]bool{}
 	for i := 0; i < *hist; i++ {
